@@ -781,8 +781,10 @@ impl Blockchain {
     }
 
     async fn add_block_transactions_back(&mut self, mempool: &mut Mempool, block: &mut Block) {
-        let wallet = mempool.wallet_lock.read().await;
-        let public_key = wallet.public_key;
+        let public_key = {
+            let wallet = mempool.wallet_lock.read().await;
+            wallet.public_key
+        };
         if block.creator == public_key {
             let transactions = &mut block.transactions;
             let prev_count = transactions.len();
@@ -803,8 +805,10 @@ impl Blockchain {
                 transactions.len(),
                 (prev_count - transactions.len())
             );
+            // through the pool's own entry point, so that the inputs are reserved again and the
+            // routing work is counted
             for tx in transactions {
-                mempool.transactions.insert(tx.signature, tx);
+                mempool.add_transaction(tx).await;
             }
             mempool.new_tx_added = true;
         }
